@@ -190,7 +190,9 @@ theorem tables_from_scripts (g : Globals) (hg : g.dialect = .mysql) (rc : Bool) 
     ∃ d out, loadAndDiff g old new = .ok d ∧ d.migrationUp g = .ok (d, out) ∧
       out.flatten.filterMap tblStmt = Abs.Idx.emitKeep (dbN.map (·.name)) (dbO.map (·.name)) ∧
       ∃ R, Abs.Idx.execAll (dbO.map (·.name)) (out.flatten.filterMap tblStmt) = some R ∧ R.Perm (dbN.map (·.name)) :=
-  tables_end_to_end g hg rc old new dbO dbN ho hn heo hen hdef
+  by
+    obtain ⟨d, out, _, h1, h2, _, h3, h4, _⟩ := tables_end_to_end g hg rc old new dbO dbN ho hn heo hen hdef
+    exact ⟨d, out, h1, h2, h3, h4⟩
 
 -- non-vacuity of `tables_from_scripts`: one table kept, one dropped, two created
 def exOldT2 : List Stmt :=
